@@ -43,7 +43,8 @@ REQUIRED_PROBES = {"quick": ["unused_vtimezone_present", "unknown_id_used", "cus
                              "amz_added", "amz_skipped_unknown", "nested_depth3", "multi_valued_entry",
                              "roundtrip", "restart_made_id_unknown", "duplicate_vtimezone", "tzidless_vtimezone",
                              "windows_id", "slash_prefixed_id", "narrow_window", "zoned_property_removed",
-                             "zoned_property_replaced", "tzid_parameter_edited_in_place", "window_given_as_datetime"]}
+                             "zoned_property_replaced", "tzid_parameter_edited_in_place", "window_given_as_datetime",
+                             "vtimezone_renamed_in_place"]}
 REQUIRED_PROBES["thorough"] = REQUIRED_PROBES["quick"]
 
 IANA = ["Europe/Berlin", "America/New_York", "Asia/Kolkata"]
@@ -154,7 +155,7 @@ def generate(rng, cfg):
         trace.append([c, "new_cal", {}])
         models[c] = Node(0, "VCALENDAR")
     weights = [("add_comp", 10), ("add_prop", 5), ("del_prop", 2.5), ("replace_prop", 2), ("edit_param", 1.5),
-               ("add_vtz", 4), ("amz", 4), ("roundtrip", 2), ("query", 1),
+               ("add_vtz", 4), ("edit_vtz", 1.5), ("amz", 4), ("roundtrip", 2), ("query", 1),
                ("other_parse", 3), ("provider_switch", 1), ("soft_restart", 1.5)]
     weights = [(o, w) for o, w in weights if o in ("add_comp", "amz") or rng.random() < 0.85]
     nsteps = rng.randint(4, cfg.get("max_steps", 24))
@@ -239,6 +240,16 @@ def generate(rng, cfg):
             parent.children.append(Node(nid, "VTIMEZONE", tzid))
             trace.append([c, "add_vtz", {"id": nid, "parent": parent.id, "tzid": tzid,
                                          "via": rng.choice(["api", "parse"]), "std": rng.choice([60, -300, 345])}])
+        elif op == "edit_vtz":
+            vtzs = [n for n in root.walk() if n.kind == "VTIMEZONE"]
+            if not vtzs:
+                continue
+            nth = rng.randrange(len(vtzs))
+            how = rng.choice(["setitem", "setitem", "pop+add", "del"])
+            newid = None if how == "del" else rng.choice(ids)
+            vtzs[nth].vtz_id = newid
+            # addressed by position: the VTIMEZONEs that a completion appends have no id of their own in the trace
+            trace.append([c, "edit_vtz", {"nth": nth, "how": how, "tzid": newid}])
         elif op == "amz":
             window = None
             if rng.random() < 0.4:
@@ -300,6 +311,8 @@ def abstract_sig(run):
             parts.append("c%s:replace:%s/%s" % (c, a["prop"]["name"], id_class(a["prop"]["tzid"])))
         elif op == "edit_param":
             parts.append("c%s:edit:%s/%s" % (c, a["name"], id_class(a["tzid"])))
+        elif op == "edit_vtz":
+            parts.append("c%s:editvtz:%s/%s" % (c, a["how"], id_class(a["tzid"])))
         elif op == "amz":
             parts.append("c%s:amz:%s" % (c, "w" if a["window"] else "d"))
         elif op == "other_parse":
@@ -557,6 +570,32 @@ def execute(run, res):
                 res.probe("tzidless_vtimezone")
             pnode.children.append(Node(a["id"], "VTIMEZONE", a["tzid"]))
             K.objs[a["id"]] = tzc
+        elif op == "edit_vtz":
+            vtzs = [n for n in K.root.walk() if n.kind == "VTIMEZONE"]
+            if not vtzs:
+                res.skipped += 1
+                continue
+            node = vtzs[a["nth"] % len(vtzs)]
+            tzc = K.objs.get(node.id)
+            if tzc is None:
+                res.skipped += 1
+                continue
+            res.ops[f"{op}:{a['how']}"] += 1
+            try:
+                if a["how"] == "del":
+                    if "TZID" in tzc:
+                        del tzc["tzid"]
+                elif a["how"] == "setitem":
+                    tzc["TZID"] = a["tzid"]            # a plain str, as client code writes it
+                else:
+                    tzc.pop("TZID", None)
+                    tzc.add("tzid", a["tzid"])
+            except Exception as e:
+                res.violate(f"C18/edit_vtz/raised:{type(e).__name__}", stepno, repr(e))
+                continue
+            if node.vtz_id is not None and node.vtz_id != a["tzid"]:
+                res.probe("vtimezone_renamed_in_place")
+            node.vtz_id = a["tzid"]
         elif op == "query":
             res.ops[op] += 1
         elif op == "roundtrip":
@@ -767,3 +806,5 @@ def simplify_step(step):
         yield [c, op, dict(a, window=None)]
     if op == "add_vtz" and a["via"] == "parse":
         yield [c, op, dict(a, via="api")]
+    if op == "edit_vtz" and a["how"] == "pop+add":
+        yield [c, op, dict(a, how="setitem")]
